@@ -221,28 +221,33 @@ Definition oc_from_string (s : ustr) : res objclass :=
 (* int(str) for a string of ASCII digits *)
 Definition int_of_digits (s : ustr) : Z := fold_left (fun acc c => (acc * 10 + Z.of_N (c - 48))%Z) s 0%Z.
 
+(* the SYNTAX value: quotes stripped, then split into oid and {length} when it has that form *)
+Definition split_syntax (raw : option ustr) : res (option ustr * option Z) :=
+  match raw with
+  | Some ((_ :: _) as raw) =>
+      let syn := strip_chars [SQ] raw in
+      match re_match rx_noidlen rx_noidlen_end syn with
+      | BYes _ c2 =>
+          match group_text syn c2 rx_noidlen_g_value, group_text syn c2 rx_noidlen_g_len with
+          | Some v, Some l => Ok (Some v, Some (int_of_digits l))
+          | _, _ => Raise (Crash IndexErr)
+          end
+      | BNo => Ok (Some syn, None)
+      | BFuel => Raise (Crash OutOfFuel)
+      end
+  | _ => Ok (None, None)
+  end.
+Definition restrip_syntax (syntax : option ustr) : option ustr :=
+  match syntax with
+  | Some ((_ :: _) as x) => Some (strip_chars [SQ] x)
+  | _ => None
+  end.
+
 Definition at_from_string (s : ustr) : res attrtype :=
   cs <- do_match rx_attribute_type rx_attribute_type_end s ;;
   let g := grp s cs in
-  '(syntax, slen) <-
-     (match g rx_attribute_type_g_syntax with
-      | Some ((_ :: _) as raw) =>
-          let syn := strip_chars [SQ] raw in
-          match re_match rx_noidlen rx_noidlen_end syn with
-          | BYes _ c2 =>
-              match group_text syn c2 rx_noidlen_g_value, group_text syn c2 rx_noidlen_g_len with
-              | Some v, Some l => Ok (Some v, Some (int_of_digits l))
-              | _, _ => Raise (Crash IndexErr)
-              end
-          | BNo => Ok (Some syn, None)
-          | BFuel => Raise (Crash OutOfFuel)
-          end
-      | _ => Ok (None, None)
-      end) ;;
-  let syntax := match syntax with
-                | Some ((_ :: _) as x) => Some (strip_chars [SQ] x)
-                | _ => None
-                end in
+  '(syntax, slen) <- split_syntax (g rx_attribute_type_g_syntax) ;;
+  let syntax := restrip_syntax syntax in
   let usage := match g rx_attribute_type_g_usage with
                | Some u => if ueqb u s_directoryOperation then 1%N
                            else if ueqb u s_distributedOperation then 2%N
